@@ -50,13 +50,16 @@ NoOp == Op("init", 0, 0, 0, "", <<>>, <<>>)
 Init ==
   /\ fam \in Fams
   /\ S = <<>>
-  /\ out = [act |-> "Init", op |-> NoOp, res |-> "ok", val |-> <<>>]
+  /\ out = [act |-> "Init", op |-> NoOp, res |-> "ok", val |-> <<>>, var |-> ""]
 
 \* one step: operation `op`, whose documented outcome is e (an Ev... operator of the core)
-Step(act, op, e) ==
+\* var: "" or, where the documentation permits both, "self" (the operand itself is returned)
+\* / "copy" (an equal new instance is returned)
+StepV(act, op, e, var) ==
   /\ S' = ApplyE(S, op, e)
-  /\ out' = [act |-> act, op |-> op, res |-> e.res, val |-> e.val]
+  /\ out' = [act |-> act, op |-> op, res |-> e.res, val |-> e.val, var |-> var]
   /\ UNCHANGED fam
+Step(act, op, e) == StepV(act, op, e, "")
 
 Slots == DOMAIN S
 Dsts == (IF Len(S) < N THEN {Len(S) + 1} ELSE {}) \cup (IF Overwrite THEN Slots ELSE {})
@@ -99,7 +102,12 @@ ResolveRelative == \E i \in Of("aligned"), t \in Terms, d \in Dsts :
 
 ResolveAbsolute == \E i \in Of("aligned"), t \in Terms, d \in Dsts :
   LET op == Op("resolve", i, 0, d, "", Seq2(t), <<>>) IN
-  ~Rel(S[i]) /\ Step("ResolveAbsolute", op, EvResolve(S[i], op))
+  ~Rel(S[i]) /\ StepV("ResolveAbsolute", op, EvResolve(S[i], op), "self")
+
+\* ... or an equal new instance: equally "an instance with equivalent absolute dimensions"
+ResolveAbsoluteCopy == \E i \in Of("aligned"), t \in Terms, d \in Dsts :
+  LET op == Op("resolve", i, 0, d, "", Seq2(t), <<>>) IN
+  ~Rel(S[i]) /\ d # i /\ StepV("ResolveAbsoluteCopy", op, CopyOf(S[i], S[i].cls), "copy")
 
 ToExactAligned == \E i \in Of("aligned"), r \in RSs, d \in Dsts :
   LET op == Op("to_exact", i, 0, d, "", Seq2(r), <<>>) IN
@@ -107,7 +115,12 @@ ToExactAligned == \E i \in Of("aligned"), r \in RSs, d \in Dsts :
 
 ToExactExact == \E i \in Of("exact"), r \in RSs, d \in Dsts :
   LET op == Op("to_exact", i, 0, d, "", Seq2(r), <<>>) IN
-  Step("ToExactExact", op, EvToExact(S[i], SzOf(r), op))
+  StepV("ToExactExact", op, EvToExact(S[i], SzOf(r), op), "self")
+
+\* ... or an equal new ExactPadding: equally "an equivalent exact padding"
+ToExactExactCopy == \E i \in Of("exact"), r \in RSs, d \in Dsts :
+  LET op == Op("to_exact", i, 0, d, "", Seq2(r), <<>>) IN
+  d # i /\ StepV("ToExactExactCopy", op, CopyOf(S[i], "ExactPadding"), "copy")
 
 GetPaddedSize == \E i \in Pads, r \in RSs, d \in Dsts :
   LET op == Op("get_padded_size", i, 0, d, "", Seq2(r), <<>>) IN
@@ -132,8 +145,9 @@ RelativeRefused == \E i \in Of("aligned") \cap Probed, r \in RSs :
 \* the render size is a stored Size object (e.g. the padded size computed by another padding)
 ChainRenderSize == \E i \in Pads, j \in RenderSizes :
   LET rs == P!Sz(S[j].n[1], S[j].n[2]) IN
-  \/ \E d \in Dsts : LET op == Op("to_exact", i, j, d, "", <<>>, <<>>) IN
-                      Step("ChainRenderSize", op, EvToExact(S[i], rs, op))
+  \/ \E d \in Dsts : LET op == Op("to_exact", i, j, d, "", <<>>, <<>>)
+                          e == EvToExact(S[i], rs, op) IN
+                      StepV("ChainRenderSize", op, e, IF e.alias > 0 THEN "self" ELSE "")
   \/ \E d \in Dsts : Step("ChainRenderSize", Op("get_padded_size", i, j, d, "", <<>>, <<>>), EvGetPaddedSize(S[i], rs))
   \/ Step("ChainRenderSize", Op("pad", i, j, 0, "", <<>>, <<>>), EvPad(S[i], rs))
 
@@ -210,7 +224,8 @@ FromHexRejected == \E i \in Of("str"), c \in Sub("Color"), f \in Forms :
 
 Next ==
   \/ NewAligned \/ NewAlignedDefault \/ NewExact \/ NewExactRejected \/ NewExactDefault
-  \/ ResolveRelative \/ ResolveAbsolute \/ ToExactAligned \/ ToExactExact \/ GetPaddedSize
+  \/ ResolveRelative \/ ResolveAbsolute \/ ResolveAbsoluteCopy \/ ToExactAligned \/ ToExactExact
+  \/ ToExactExactCopy \/ GetPaddedSize
   \/ ExactDims \/ PadOutput \/ RelativeRefused \/ ChainRenderSize \/ Dimensions \/ MinSize
   \/ RebuildSame \/ RebuildInt \/ RebuildStr \/ NewSize \/ NewSizeRejected \/ BypassSize
   \/ Replace \/ SetAttr \/ DelAttr
@@ -219,7 +234,8 @@ Next ==
 Spec == Init /\ [][Next]_vars
 
 ActionNames == {"NewAligned", "NewAlignedDefault", "NewExact", "NewExactRejected", "NewExactDefault",
-  "ResolveRelative", "ResolveAbsolute", "ToExactAligned", "ToExactExact", "GetPaddedSize", "ExactDims",
+  "ResolveRelative", "ResolveAbsolute", "ResolveAbsoluteCopy", "ToExactAligned", "ToExactExact",
+  "ToExactExactCopy", "GetPaddedSize", "ExactDims",
   "PadOutput", "RelativeRefused", "ChainRenderSize", "Dimensions", "MinSize", "RebuildSame", "RebuildInt",
   "RebuildStr", "NewSize", "NewSizeRejected", "BypassSize", "Replace", "SetAttr", "DelAttr", "NewColor",
   "NewColorRejected", "NewColorRGB", "BypassColor", "Hex", "RgbHex", "Rgb", "NewStr", "FromHex",
@@ -280,7 +296,11 @@ SameButId(a, b) == Strip(a) = Strip(b)
 \* (used to validate recorded histories) gives for it
 ActionsAreCoreStep ==
   /\ WFOp(S, o2)
-  /\ LET e == Eval(S, o2) IN out'.res = e.res /\ out'.val = e.val /\ S' = ApplyE(S, o2, e)
+  /\ LET e0 == Eval(S, o2)
+         e == IF out'.var = "copy" THEN CopyOf(S[o2.i], IF o2.name = "to_exact" THEN "ExactPadding" ELSE S[o2.i].cls)
+              ELSE e0
+     IN /\ out'.res = e.res /\ out'.val = e.val /\ S' = ApplyE(S, o2, e)
+        /\ (out'.var # "") = (e0.alias > 0)          \* exactly the operations that may return the operand
 ActionsAreCoreOps == [][ActionsAreCoreStep]_vars
 
 \* a refused operation and an operation returning a plain value leave every object as it was
@@ -288,7 +308,7 @@ RejectedChangesNothing == [][~Accepted => S' = S]_vars
 ValueOpsChangeNothing == [][Named(ValueOps \cup ProbeOps) => S' = S]_vars
 
 \* immutability: every attribute assignment / deletion is refused
-MutationRefused == [][Named(ProbeOps) => out'.res = "AttributeError"]_vars
+MutationRefused == [][Named(ProbeOps) => out'.res # "ok"]_vars
 
 \* binding a result touches that one variable: all other variables keep their object, and
 \* which of them are the same object
@@ -309,8 +329,8 @@ OnlyBypassMakesInvalid == [][OnlyBypassMakesInvalidStep]_vars
 ResolveStep ==
   Accepted /\ Named({"resolve"}) =>
     /\ ~Rel(Dst)
-    /\ ~Rel(Src) => Dst.id = S'[o2.i].id \/ o2.dst = o2.i
     /\ ~Rel(Src) => SameButId(Dst, Src)
+    /\ ~Rel(Src) /\ o2.dst # o2.i => (Dst.id = S'[o2.i].id) = (out'.var = "self")
     /\ Rel(Src) =>
          /\ o2.dst # o2.i => Dst.id # S'[o2.i].id
          /\ Dst.cls = Src.cls /\ Dst.s = Src.s
@@ -324,7 +344,8 @@ ResolveLaw == [][ResolveStep]_vars
 ToExactStep ==
   Accepted /\ Named({"to_exact"}) =>
     /\ Dst.k = "exact" /\ Fill(Dst) = Fill(Src)
-    /\ Src.k = "exact" => SameButId(Dst, Src) /\ (Dst.id = S'[o2.i].id \/ o2.dst = o2.i)
+    /\ Src.k = "exact" => Dst.n = Src.n /\ Dst.s = Src.s /\ Dst.cls \in CopyClasses(Src, "to_exact")
+    /\ Src.k = "exact" /\ o2.dst # o2.i => (Dst.id = S'[o2.i].id) = (out'.var = "self")
     /\ Src.k = "aligned" => Dst.cls = "ExactPadding" /\ (o2.dst # o2.i => Dst.id # S'[o2.i].id)
     /\ P!Dims(AsPad(Dst), RSof) = P!Dims(AsPad(Src), RSof)
     /\ P!PaddedSize(AsPad(Dst), RSof) = P!PaddedSize(AsPad(Src), RSof)     \* the commuting law
@@ -397,7 +418,7 @@ HexLaw == [][HexStep]_vars
 KeyStr(s) == ToString(<<fam, s>>)
 
 OpOut(o, s2) == [act |-> o.act, name |-> o.op.name, i |-> o.op.i, j |-> o.op.j, dst |-> o.op.dst, cls |-> o.op.cls,
-                 n |-> o.op.n, s |-> o.op.s, res |-> o.res, val |-> o.val, exp |-> Obs(s2)]
+                 n |-> o.op.n, s |-> o.op.s, res |-> o.res, val |-> o.val, var |-> o.var, exp |-> Obs(s2)]
 
 Dump == PrintT(<<"EDGE", ToJson([from |-> KeyStr(S), op |-> OpOut(out', S'), to |-> KeyStr(S'),
                                  fam |-> fam])>>)
